@@ -94,4 +94,8 @@ theorem start_nobias (v : Env) (h : v.bias = false) : start v = 1 := by
 theorem rangeHi_eq (v : Env) : rangeHi v = v.degree + 1 := by unfold rangeHi; omega
 end Slow
 
+namespace SlowFill
+theorem wholeColumns_eq (v : Env) : wholeColumns v = true := by unfold wholeColumns; rfl
+end SlowFill
+
 end MlVerif.Gen.C11
